@@ -202,6 +202,18 @@ def oracle_purity(case, ctx):
                 return discs
         else:
             first[name] = out
+    if case["family"] == "forecaster" and not pools.needs_fh_in_fit(case["spec"]) and not discs:
+        # a horizon passed to predict is remembered; repeating the call without it must give the
+        # same answer (predict does not change the estimator, whatever steps were asked for)
+        for hz in ([-3, -1, 0], [-1, 0, 1, 2], [2, 4]):
+            a = sut(est.predict, hz)
+            b = sut(est.predict)
+            if isinstance(a, Raised) and isinstance(b, Raised):
+                continue
+            if not res_eq(a, b):
+                discs.append(D("apply_not_repeatable:%s.predict_with_remembered_horizon" % type(est).__name__,
+                               "%s: predict(%s) returned %s, predict() right after it %s" % (desc, hz, _short(a), _short(b))))
+                break
     return discs
 
 
